@@ -80,6 +80,11 @@ def opOf (j : Json) : Except String Op := do
   if op = "noise" then return .setNoise (← optOf j "n" (·.getNat?))
   if op = "param" then return .setParam (← strOf j "k") (← pvOfJson (← j.getObjVal? "v"))
   if op = "clear_params" then return .clearParams
+  if op = "set_circuit" then
+    return .setCircuit (← boolOf j "checked") (← natOf j "size") (← natOf j "circ")
+      (← strListOf (← j.getObjVal? "cparams"))
+  if op = "retune" then return .retune (← natOf j "circ")
+  if op = "add_comp" then return .addComponent (← natOf j "circ") (← strListOf (← j.getObjVal? "cparams"))
   if op = "prepare" then
     return .prepare (← strOf j "cmd") (← boolOf j "circuitless") (← boolOf j "inputless")
       ((← pairsOf (← j.getObjVal? "kw") pvOfJson).map fun kv => (kv.1, V.pv kv.2))
